@@ -63,6 +63,20 @@ theorem localsOf_tables {nc2 nc3 : Nat} {l2 l3 : List SLv} {D S : List Lv} (r : 
     | nil => simp [localsOf, hr]
     | cons x xs => simp [localsOf, hr]
 
+theorem sum_zero_of : ∀ (l : List Nat), (∀ v ∈ l, v = 0) → l.sum = 0
+  | [], _ => rfl
+  | a :: l, h => by
+    simp [h a List.mem_cons_self, sum_zero_of l (fun v hv => h v (List.mem_cons_of_mem _ hv))]
+
+/-- the unknown attributes denote themselves -/
+theorem unknownsOf_unknowns : ∀ (ncs : List Nat) (as : List Attr), ncs.length = as.length →
+    unknownsOf ((ncs.zip as).map fun x => SCodeAttr.unknown x.1 x.2.name x.2.bytes) = as
+  | _, [], _ => by simp [unknownsOf]
+  | [], _ :: _, h => by simp at h
+  | n :: ncs, a :: as, h => by
+    simp only [List.zip_cons_cons, List.map_cons, unknownsOf]
+    rw [unknownsOf_unknowns ncs as (by simpa using h)]
+
 /-- **`write_code`** (fragment `RCodeOk` of the resolved body): the bytes are the encoding of a layout that is legal in
 every later pool with every later bootstrap table and denotes the method body with its labels renamed to instruction
 indices; bootstrap rows are only appended -/
@@ -148,7 +162,8 @@ theorem writeCode_spec {c : Code} {p p' : Pool} {bs bs' : List Bsm} {b : Bytes} 
         exact (hins e he).2.2 f0 hfr)
     s2.good h3
   -- the attribute blocks
-  obtain ⟨o1, q1, r1, e1, k1, rfl⟩ := runAttrs_cons_inv h4
+  obtain ⟨r0, q5, ru, h4k, ku, rfl⟩ := runAttrs_append_inv h4
+  obtain ⟨o1, q1, r1, e1, k1, rfl⟩ := runAttrs_cons_inv h4k
   obtain ⟨o2, q2, r2, e2, k2, rfl⟩ := runAttrs_cons_inv k1
   obtain ⟨o3, q3, r3, e3, k3, rfl⟩ := runAttrs_cons_inv k2
   obtain ⟨o4, q4, r4, e4, k4, rfl⟩ := runAttrs_cons_inv k3
@@ -278,19 +293,29 @@ theorem writeCode_spec {c : Code} {p p' : Pool} {bs bs' : List Bsm} {b : Bytes} 
     exact this
   obtain ⟨t4, nc4, sas4, c4, hf4⟩ := taBlock_spec (n := c.insns.length) hlp true t23.good hrv e4
   obtain ⟨t5, nc5, sas5, c5, hf5⟩ := taBlock_spec (n := c.insns.length) hlp false t4.good hri e5
+  obtain ⟨t6, ncs, hnlen, rfl, hunk⟩ := unknownAttrs_spec c.attrs t5.good ku
   obtain ⟨hcount, rfl⟩ := attrsBytes_inv h5
   -- the layout
+  let lo6 : List SCodeAttr := (ncs.zip c.attrs).map fun x => SCodeAttr.unknown x.1 x.2.name x.2.bytes
+  have tl6 : ∀ a ∈ lo6, ctag a = 5 := by
+    intro a ha
+    obtain ⟨x, _, rfl⟩ := List.mem_map.mp ha
+    rfl
   let lo1 : Option SCodeAttr := c.lines.map fun ls => SCodeAttr.lines nc1 (ls.map fun e => (lab e.1, e.2))
   let lo0 : Option SCodeAttr := if sfs = [] then none else some (SCodeAttr.frames nc0 sfs)
   let lo4 : Option SCodeAttr := if c.rvta = [] then none else some (.typeAnnos nc4 true sas4)
   let lo5 : Option SCodeAttr := if c.ritva = [] then none else some (.typeAnnos nc5 false sas5)
-  let rest : List SCodeAttr := lo1.toList ++ (lo2.toList ++ (lo3.toList ++ (lo4.toList ++ (lo5.toList ++ []))))
+  let rest : List SCodeAttr := lo1.toList ++ (lo2.toList ++ (lo3.toList ++ (lo4.toList ++ (lo5.toList ++ lo6))))
   let attrs : List SCodeAttr := lo0.toList ++ rest
   have hbytes : smtBytes smt ++
-      (o1.toList ++ (o2.toList ++ (o3.toList ++ (o4.toList ++ (o5.toList ++ []))))) =
+      ((o1.toList ++ (o2.toList ++ (o3.toList ++ (o4.toList ++ (o5.toList ++ []))))) ++
+        (ncs.zip c.attrs).map (fun x => attrFrame x.1 x.2.bytes)) =
       attrs.map (SCodeAttr.encode (codePos (sinsnsOf rcs))) := by
-    rw [hsmt, c1.1, c2.1, c3.1, c4.1, c5.1]
-    simp only [toList_map_enc, attrs, rest, List.map_append, List.map_nil]
+    have h6 : (ncs.zip c.attrs).map (fun x => attrFrame x.1 x.2.bytes) =
+        lo6.map (SCodeAttr.encode (codePos (sinsnsOf rcs))) := by
+      simp [lo6, List.map_map, Function.comp_def, SCodeAttr.encode]
+    rw [hsmt, c1.1, c2.1, c3.1, c4.1, c5.1, h6]
+    simp only [toList_map_enc, attrs, rest, List.map_append, List.map_nil, List.append_nil, List.append_assoc]
     rfl
   have tg0 : ∀ a ∈ lo0, ctag a = 0 := by
     intro a ha
@@ -303,7 +328,7 @@ theorem writeCode_spec {c : Code} {p p' : Pool} {bs bs' : List Bsm} {b : Bytes} 
     rfl
   have tg4 : ∀ a ∈ lo4, ctag a = 4 := by intro a ha; rw [mem_ite_none (show a ∈ (if c.rvta = [] then none else some (SCodeAttr.typeAnnos nc4 true sas4)) from ha)]; rfl
   have tg5 : ∀ a ∈ lo5, ctag a = 4 := by intro a ha; rw [mem_ite_none (show a ∈ (if c.ritva = [] then none else some (SCodeAttr.typeAnnos nc5 false sas5)) from ha)]; rfl
-  have s45 := t4.trans t5
+  have s45 := t4.trans (t5.trans t6)
   have s345 := t23.trans s45
   have s1345 := t1.trans s345
   have sall := t0.trans s1345
@@ -315,7 +340,8 @@ theorem writeCode_spec {c : Code} {p p' : Pool} {bs bs' : List Bsm} {b : Bytes} 
   · -- legality
     intro q bs'' hq hbs
     have hq5 : Ext p' q := hq
-    have hq4 : Ext q4 q := hq.of_le t5.le
+    have hq4 : Ext q4 q := hq.of_le (t5.trans t6).le
+    have hq5' : Ext q5 q := hq.of_le t6.le
     have hq3 : Ext q3 q := hq.of_le s45.le
     have hq1 : Ext q1 q := hq.of_le s345.le
     have hq0 : Ext p3 q := hq.of_le s1345.le
@@ -345,26 +371,32 @@ theorem writeCode_spec {c : Code} {p p' : Pool} {bs bs' : List Bsm} {b : Bytes} 
       omega
     · -- every attribute
       intro a ha
-      simp only [attrs, rest, List.mem_append, Option.mem_toList, List.not_mem_nil, or_false] at ha
+      simp only [attrs, rest, List.mem_append, Option.mem_toList] at ha
       rw [hslen, hlen]
-      rcases ha with ha | ha | ha | ha | ha | ha
+      rcases ha with ha | ha | ha | ha | ha | ha | ha
       · exact c0 a ha q hq0
       · exact c1.2 a ha q hq1
       · exact c2.2 a ha q hq3
       · exact c3.2 a ha q hq3
       · exact c4.2 a ha q hq4
-      · exact c5.2 a ha q hq5
+      · exact c5.2 a ha q hq5'
+      · obtain ⟨x, hx, rfl⟩ := List.mem_map.mp ha
+        obtain ⟨hn', hu, hbl⟩ := hunk x hx
+        exact ⟨hn', getUtf8_of hq.good (hu.mono hq.le),
+          hok.attrs x.2 (by simp only [relabel]; exact (List.of_mem_zip hx).2), hbl⟩
     · -- at most one StackMapTable
       have hrest : rest.filter SCodeAttr.isFrames = [] := by
         rw [List.filter_eq_nil_iff]
         intro a ha
-        simp only [rest, List.mem_append, Option.mem_toList, List.not_mem_nil, or_false] at ha
-        rcases ha with ha | ha | ha | ha | ha
+        simp only [rest, List.mem_append, Option.mem_toList] at ha
+        rcases ha with ha | ha | ha | ha | ha | ha
         · have := tg1 a ha; cases a <;> simp_all [ctag, SCodeAttr.isFrames]
         · have := tg2 a ha; cases a <;> simp_all [ctag, SCodeAttr.isFrames]
         · have := tg3 a ha; cases a <;> simp_all [ctag, SCodeAttr.isFrames]
         · have := tg4 a ha; cases a <;> simp_all [ctag, SCodeAttr.isFrames]
         · have := tg5 a ha; cases a <;> simp_all [ctag, SCodeAttr.isFrames]
+        · obtain ⟨x, _, rfl⟩ := List.mem_map.mp ha
+          simp [SCodeAttr.isFrames]
       have hfil : attrs.filter SCodeAttr.isFrames = lo0.toList.filter SCodeAttr.isFrames := by
         show (lo0.toList ++ rest).filter SCodeAttr.isFrames = _
         rw [List.filter_append, hrest, List.append_nil]
@@ -412,11 +444,17 @@ theorem writeCode_spec {c : Code} {p p' : Pool} {bs bs' : List Bsm} {b : Bytes} 
         cases e.frame with
         | none => rfl
         | some f => simp [frameRefsO, frameRefs, frameOf_frMapL]
+      have r6 : (lo6.map SCodeAttr.labelRefs).sum = 0 := by
+        apply sum_zero_of
+        intro v hv
+        obtain ⟨a, ha, rfl⟩ := List.mem_map.mp hv
+        obtain ⟨x, _, rfl⟩ := List.mem_map.mp ha
+        rfl
       have rsum : (attrs.map SCodeAttr.labelRefs).sum = (lo0.toList.map SCodeAttr.labelRefs).sum +
           ((lo1.toList.map SCodeAttr.labelRefs).sum +
           (((lo2.toList ++ lo3.toList).map SCodeAttr.labelRefs).sum + ((lo4.toList.map SCodeAttr.labelRefs).sum +
             (lo5.toList.map SCodeAttr.labelRefs).sum))) := by
-        simp only [attrs, rest, List.map_append, List.sum_append, List.map_nil, List.sum_nil]
+        simp only [attrs, rest, List.map_append, List.sum_append, List.map_nil, List.sum_nil, r6]
         omega
       show CodeLayout.labelRefs ⟨c.maxStack, c.maxLocals, sinsnsOf rcs, sexcs, attrs⟩ < 65535
       simp only [CodeLayout.labelRefs]
@@ -424,19 +462,19 @@ theorem writeCode_spec {c : Code} {p p' : Pool} {bs bs' : List Bsm} {b : Bytes} 
       unfold codeRefs at href
       omega
   · -- the facts
-    have hattrs := hok.attrs
-    have tagsRest : ∀ a ∈ rest, ctag a = 1 ∨ ctag a = 2 ∨ ctag a = 3 ∨ ctag a = 4 := by
+    have tagsRest : ∀ a ∈ rest, ctag a = 1 ∨ ctag a = 2 ∨ ctag a = 3 ∨ ctag a = 4 ∨ ctag a = 5 := by
       intro a ha
-      simp only [rest, List.mem_append, Option.mem_toList, List.not_mem_nil, or_false] at ha
-      rcases ha with ha | ha | ha | ha | ha
+      simp only [rest, List.mem_append, Option.mem_toList] at ha
+      rcases ha with ha | ha | ha | ha | ha | ha
       · exact Or.inl (tg1 a ha)
       · exact Or.inr (Or.inl (tg2 a ha))
       · exact Or.inr (Or.inr (Or.inl (tg3 a ha)))
-      · exact Or.inr (Or.inr (Or.inr (tg4 a ha)))
-      · exact Or.inr (Or.inr (Or.inr (tg5 a ha)))
+      · exact Or.inr (Or.inr (Or.inr (Or.inl (tg4 a ha))))
+      · exact Or.inr (Or.inr (Or.inr (Or.inl (tg5 a ha))))
+      · exact Or.inr (Or.inr (Or.inr (Or.inr (tl6 a ha))))
     have tl0 : ∀ a ∈ lo0.toList, ctag a = 0 := tag_toList tg0
     have f0 : framesOf attrs = sfs := by
-      have hr := framesOf_skip rest [] (fun a ha => by rcases tagsRest a ha with h | h | h | h <;> omega)
+      have hr := framesOf_skip rest [] (fun a ha => by rcases tagsRest a ha with h | h | h | h | h <;> omega)
       simp only [List.append_nil, framesOf] at hr
       show framesOf (lo0.toList ++ rest) = sfs
       by_cases hnil : sfs = []
@@ -446,12 +484,27 @@ theorem writeCode_spec {c : Code} {p p' : Pool} {bs bs' : List Bsm} {b : Bytes} 
       · have h0 : lo0 = some (SCodeAttr.frames nc0 sfs) := by simp [lo0, hnil]
         rw [h0]
         rfl
-    have f5 : unknownsOf attrs = [] := by
-      have := unknownsOf_skip attrs [] (fun a ha => by
-        rcases List.mem_append.mp (show a ∈ lo0.toList ++ rest from ha) with ha | ha
-        · rw [tl0 a ha]; decide
-        · rcases tagsRest a ha with h | h | h | h <;> omega)
-      simpa [unknownsOf] using this
+    have tl2 : ∀ a ∈ lo2.toList, ctag a = 2 := tag_toList tg2
+    have tl3 : ∀ a ∈ lo3.toList, ctag a = 3 := tag_toList tg3
+    have tl4 : ∀ a ∈ lo4.toList, ctag a = 4 := tag_toList tg4
+    have tl5 : ∀ a ∈ lo5.toList, ctag a = 4 := tag_toList tg5
+    have tl1 : ∀ a ∈ lo1.toList, ctag a = 1 := tag_toList tg1
+    have f5 : unknownsOf attrs = c.attrs := by
+      simp only [attrs, rest]
+      rw [unknownsOf_skip _ _ (fun a ha => by rw [tl0 a ha]; decide), unknownsOf_skip _ _ (fun a ha => by rw [tl1 a ha]; decide),
+        unknownsOf_skip _ _ (fun a ha => by rw [tl2 a ha]; decide), unknownsOf_skip _ _ (fun a ha => by rw [tl3 a ha]; decide),
+        unknownsOf_skip _ _ (fun a ha => by rw [tl4 a ha]; decide), unknownsOf_skip _ _ (fun a ha => by rw [tl5 a ha]; decide)]
+      exact unknownsOf_unknowns ncs c.attrs hnlen
+    have l6 : linesOf lo6 = none := by
+      have := linesOf_skip lo6 [] (fun a ha => by rw [tl6 a ha]; decide)
+      simpa [linesOf] using this
+    have v6 : localsOf lo6 = none := by
+      have := localsOf_skip lo6 [] (fun a ha => by rw [tl6 a ha]; decide)
+      simpa [localsOf] using this
+    have a6 : ∀ v : Bool, typeAnnosOf v lo6 = [] := by
+      intro v
+      have := typeAnnosOf_skip v lo6 [] (fun a ha => by rw [tl6 a ha]; decide)
+      simpa [typeAnnosOf] using this
     have fi : factEntries (framesOf attrs) 0 (sinsnsOf rcs) = (relabel lab c).insns := by
       rw [f0, factEntries_collect (sinsnsOf rcs) res.pos.toList (c.insns.map fun e => e.frame.map (frameOf lab)) 0 sfs
         (by simp [hpsz, hslen, hlen]) (by simp [hslen, hlen]) hffact]
@@ -477,17 +530,11 @@ theorem writeCode_spec {c : Code} {p p' : Pool} {bs bs' : List Bsm} {b : Bytes} 
       obtain ⟨y, hy, rfl⟩ := List.mem_map.mp hx
       obtain ⟨a1, a2, a3, a4, _⟩ := her y hy
       simp [a1, a2, a3, a4]
-    have tl2 : ∀ a ∈ lo2.toList, ctag a = 2 := tag_toList tg2
-    have tl3 : ∀ a ∈ lo3.toList, ctag a = 3 := tag_toList tg3
-    have tl4 : ∀ a ∈ lo4.toList, ctag a = 4 := tag_toList tg4
-    have tl5 : ∀ a ∈ lo5.toList, ctag a = 4 := tag_toList tg5
-    have tl1 : ∀ a ∈ lo1.toList, ctag a = 1 := tag_toList tg1
     have fl : linesOf attrs = (relabel lab c).lines := by
-      have hrest : linesOf (lo2.toList ++ (lo3.toList ++ (lo4.toList ++ (lo5.toList ++ [])))) = none := by
+      have hrest' : linesOf (lo2.toList ++ (lo3.toList ++ (lo4.toList ++ (lo5.toList ++ lo6)))) = none := by
         rw [linesOf_skip _ _ (fun a ha => by rw [tl2 a ha]; decide), linesOf_skip _ _ (fun a ha => by rw [tl3 a ha]; decide),
           linesOf_skip _ _ (fun a ha => by rw [tl4 a ha]; decide), linesOf_skip _ _ (fun a ha => by rw [tl5 a ha]; decide)]
-        rfl
-      have hrest' : linesOf (lo2.toList ++ (lo3.toList ++ (lo4.toList ++ lo5.toList))) = none := by simpa using hrest
+        exact l6
       simp only [attrs, rest]
       rw [linesOf_skip _ _ (fun a ha => by rw [tl0 a ha]; decide)]
       cases hl : c.lines with
@@ -498,8 +545,8 @@ theorem writeCode_spec {c : Code} {p p' : Pool} {bs bs' : List Bsm} {b : Bytes} 
       rw [localsOf_skip _ _ (fun a ha => by rw [tl0 a ha]; decide), localsOf_skip _ _ (fun a ha => by rw [tl1 a ha]; decide)]
       apply hlocs
       rw [localsOf_skip _ _ (fun a ha => by rw [tl4 a ha]; decide), localsOf_skip _ _ (fun a ha => by rw [tl5 a ha]; decide)]
-      rfl
-    have ft : ∀ v : Bool, typeAnnosOf v attrs = typeAnnosOf v (lo4.toList ++ (lo5.toList ++ [])) := by
+      exact v6
+    have ft : ∀ v : Bool, typeAnnosOf v attrs = typeAnnosOf v (lo4.toList ++ (lo5.toList ++ lo6)) := by
       intro v
       simp only [attrs, rest]
       rw [typeAnnosOf_skip v _ _ (fun a ha => by rw [tl0 a ha]; decide),
@@ -509,14 +556,13 @@ theorem writeCode_spec {c : Code} {p p' : Pool} {bs bs' : List Bsm} {b : Bytes} 
     have fa1 : typeAnnosOf true attrs = (relabel lab c).rvta := by
       rw [ft]
       by_cases h4n : c.rvta = [] <;> by_cases h5n : c.ritva = [] <;>
-        simp [lo4, lo5, h4n, h5n, typeAnnosOf, relabel, hf4]
+        simp [lo4, lo5, h4n, h5n, typeAnnosOf, relabel, hf4, a6]
     have fa2 : typeAnnosOf false attrs = (relabel lab c).ritva := by
       rw [ft]
       by_cases h4n : c.rvta = [] <;> by_cases h5n : c.ritva = [] <;>
-        simp [lo4, lo5, h4n, h5n, typeAnnosOf, relabel, hf5]
+        simp [lo4, lo5, h4n, h5n, typeAnnosOf, relabel, hf5, a6]
     show CodeLayout.facts ⟨c.maxStack, c.maxLocals, sinsnsOf rcs, sexcs, attrs⟩ = relabel lab c
     simp only [CodeLayout.facts, fi, fe, fl, fv, fa1, fa2, f5]
-    simp only [relabel] at hattrs ⊢
-    rw [hattrs]
+    simp only [relabel]
 
 end ClassWriteFull
